@@ -96,6 +96,10 @@ func TestVerif_Admission(t *testing.T) {
 		if sc.Kind == "size" {
 			if sc.Route == "anthropic" {
 				maxBody, maxMsg = 1<<20, maxMsgCfg
+			} else if sc.Route == "anthropic_eq" {
+				// the server-wide body limit equals the Anthropic message limit (the hardening the documentation recommends)
+				maxBody, maxMsg = maxMsgCfg, maxMsgCfg
+				sc.Route = "anthropic"
 			} else {
 				maxBody = maxBodyCfg
 			}
